@@ -12,6 +12,9 @@ def dispatch (j : Json) : Except String String := do
   match p with
   | "C13" => SS.Drv.C13.handle j
   | "C10" => SS.Drv.C10.handle j
+  | "C05" => SS.Drv.C10.handle j
+  | "C16" => SS.Drv.C10.handle j
+  | "C03" => SS.Drv.C10.handle j
   | _ => throw s!"unknown property {p}"
 
 partial def loop (h : IO.FS.Stream) (out : IO.FS.Stream) : IO Unit := do
